@@ -141,7 +141,7 @@ func (rn *runner) judge(d *dataset, qi int, q *querySpec, outs []outcome) {
 			if o.ans2 != nil {
 				if mm2 := compareAnswers(canon[i], o.ans2.canonical(o.cell.Desc), q.isMean()); mm2 != nil {
 					sig := classifyMeta(q, o.cell, o.cell, canon[i], o.ans2.canonical(o.cell.Desc), mm2)
-					if !strings.HasPrefix(sig, "metamorphic-only|") && sig != sigMixedChunk && sig != sigBTMEmpty {
+					if !strings.HasPrefix(sig, "metamorphic-only|") && sig != sigBTMEmpty {
 						sig = "second-statement-of-batch|" + sig
 					}
 					addFail(sig, "metamorphic", "the two statements of one parallelbatch request differ: "+mm2.String(), o.cell, mm2, o.ans2)
@@ -416,11 +416,6 @@ func classifyMeta(q *querySpec, a, b cell, ref, got *answer, mm *mismatch) strin
 	if a.BTM && len(got.Series) == 0 && len(ref.Series) > 0 {
 		return sigBTMEmpty
 	}
-	var hasTag0, hasField0 bool
-	q.Where.kinds(&hasTag0, &hasField0)
-	if q.Agg && (q.Interval > 0 || hasField0) && (a.Layout == "mixed" && a.Inner < 1024 || b.Layout == "mixed" && b.Inner < 1024) {
-		return sigMixedChunk
-	}
 	var hasTag, hasField bool
 	q.Where.kinds(&hasTag, &hasField)
 	if q.Agg && hasField && (q.Interval == 0 || q.Fill == "none" || q.Fill == "previous") {
@@ -465,9 +460,6 @@ func dropAllNullRows(a *answer) *answer {
 func classifyTie(q *querySpec, a, b cell, mm *mismatch) string {
 	var hasTag, hasField bool
 	q.Where.kinds(&hasTag, &hasField)
-	if (q.Interval > 0 || hasField) && (a.Layout == "mixed" && a.Inner < 1024 || b.Layout == "mixed" && b.Inner < 1024) {
-		return sigMixedChunk // answers of that input class are wrong anyway (known), ties included
-	}
 	what := "value-differs"
 	if mm.WrongTime > 0 && mm.WrongValue == 0 {
 		what = "reported-time-differs"
